@@ -47,7 +47,7 @@ def draw_fault(t, data: bytes, lang: str, allow_blowup: bool = True, force_blowu
     elif kind == "long_line":
         p = [t.pick([5000, 100000, 1000000], "fault.n")]
     elif kind == "many_funcs":
-        p = [t.pick([100, 400, 1200], "fault.n")]
+        p = [t.pick([60, 200, 500], "fault.n")]
     elif kind in ("deep_parens", "deep_list"):
         p = [t.pick([100, 900, 5000], "fault.n")]
     else:
